@@ -59,6 +59,9 @@ def main():
         for o in now:
             print("  now [%s]: %s\n    %s" % ("discharged" if o["ok"] else "FAILS", o["where"], o["detail"]))
         return 0 if all(o["ok"] for o in now) else 1
+    if os.environ.get("SFSVERIF_LIST"):
+        for o in chk.obs:
+            print("OB %s %s" % ("ok  " if o["ok"] else "FAIL", o["id"]))
     if a.tier == "thorough":
         try:
             import thorough
